@@ -1119,6 +1119,48 @@ def _batch(s, cases):
 
 
 TOTALS = {}
+WITNESS = {}
+
+
+def run_witnesses(ctx, s_conn):
+    """corpus cases of suite "witness": the Coq witnesses of prune_uncovered_refuted / ack_timely_cap_refuted replayed on
+    real connections.  The model must agree with the implementation step by step (ordinary correspondence), and the
+    wire must show the refuted behaviour: the packet is accepted, ack-eliciting, and never covered by any ACK frame."""
+    listed = any(k.get("property") == "C12" and k.get("status") == "open" and k.get("match", {}).get("cause") == "ack-range-cap"
+                 for k in ctx.known)
+
+    def w_oracle_conn(sub):
+        # the cap witness IS a violation of the timeliness sentence (docs/C12.md F2).  Until known_findings.json lists it
+        # (match {"oracle": "O2", "cause": "ack-range-cap"}) it is reported in the evidence, not as a VIOLATION, and only
+        # for this fixed corpus case: the generated suites keep the full oracle.
+        bad = [b for b in execute(sub["of"])[sub["ep"]]["bad"] if listed or b[1].get("cause") != "ack-range-cap"]
+        return bad[0] if bad else None
+
+    s_wit = corr.Suite(ctx, "witness", "exec_ackconn", e_encode, e_impl, w_oracle_conn, e_ops, e_rebuild,
+                       nontrivial=e_nontrivial, opname=e_opname)
+    for case in corr.load_corpus("C12", "witness"):
+        subs = split_cases(case)
+        s_wit.run(subs)
+        WITNESS["_correspondence_" + case["expect"]] = {"disagreements": s_wit.stats["disagreements"]}
+        r = Run(case)
+        res = r.results()[0]
+        tr = r.tracers[0]
+        index_of = wire_index(r.pair)
+        target = min(h[3] for h in tr.hist if h[0] == "acc" and h[4] and h[5] and h[1] > 1000.05)
+        covered = False
+        for h in tr.hist:
+            if h[0] != "tx":
+                continue
+            for data in h[2]:
+                for p in r.pair.observer.by_datagram.get(index_of.get(data), []):
+                    for f in p.frames:
+                        if f.name == "ACK" and p.type == "1rtt" and any(a <= target <= b for a, b in f.fields["ranges"]):
+                            covered = True
+        queued = any(rg.start <= target < rg.stop for rg in tr.ep.conn._loss.spaces[2].ack_queue)
+        reproduced = (not covered) and (not queued) and tr.ep.conn._loss.spaces[2].ack_at is None
+        WITNESS[case["expect"]] = {"reproduced": reproduced, "packet": target, "oracle": [b[1] for b in res["bad"]]}
+        if not reproduced:
+            ctx.notes.append("witness %s no longer reproduces on this tree (the refuted theorem describes the model only)" % case["expect"])
 
 
 def _count(cases):
@@ -1144,6 +1186,7 @@ def run(ctx):
             _count(part)
             s_conn.run(subs)
             _CACHE.clear()
+    run_witnesses(ctx, s_conn)
     wc = corr.load_corpus("C12", "writer") + boundary_writer() + gen_writer(rng, ctx.n(1500, 20000))
     for i in range(0, len(wc), 500):
         s_w.run(wc[i:i + 500])
@@ -1158,7 +1201,7 @@ def run(ctx):
         "application traffic.  writer: QuicConnection._write_ack_frame / _on_ack_delivery on real packet builders with the "
         "room around the reserved capacity, 1..70 ranges, 8-byte varints.  distinct = distinct op-token encoding, "
         "non-trivial = at least one ACK frame was written",
-        {"op_totals": dict(TOTALS)})
+        {"op_totals": dict(TOTALS), "refuted_witnesses_on_implementation": dict(WITNESS)})
 
 
 def replay(ctx, rep):
